@@ -22,6 +22,12 @@ Open Scope Z_scope.
 
 Definition addr := bytes.
 
+(* How Go enumerates a map in a `for ... range`: any permutation of its entries.  Every
+   function below that ranges over a map applies [enum] to the entries first; theorems
+   quantify over all enumerators that return a permutation ([enum_ok] in Proofs). *)
+Definition enumerator := forall A : Type, list A -> list A.
+Definition enum_id : enumerator := fun _ l => l.
+
 Definition two64 : Z := 18446744073709551616.
 Definition two63 : Z := 9223372036854775808.
 
@@ -80,6 +86,7 @@ Definition ensure_valid (c : config) : bool :=
 Section Voting.
   Context {T : Type}.
   Variable teqb : T -> T -> bool.
+  Variable enum : enumerator.
 
   Record voting := mkVoting { v_votes : amap nat; v_cands : list T }.
 
@@ -116,7 +123,7 @@ Section Voting.
   (* outcomeIndex after the repair: candidate indices in order; an index is in the tally map
      only if it has at least one vote *)
   Definition outcome_index (v : voting) (req : Z) : option nat :=
-    first_index_meeting (v_votes v) req 0 (length (v_cands v)).
+    first_index_meeting (enum _ (v_votes v)) req 0 (length (v_cands v)).
 
   (* outcomeIndex before the repair: [enum] is the order in which Go enumerates the tally
      map (index, count); the first entry with count >= req wins *)
@@ -319,6 +326,9 @@ Fixpoint strip_zeros (b : bytes) : bytes :=
 
 (* ---------------------------------------------------------------- deliver* *)
 
+Section WithEnum.
+Variable enum : enumerator.
+
 Definition resp := (N * list event)%type.
 Definition err : resp := (code_error, []).
 Definition seen : resp := (code_seen, []).
@@ -353,7 +363,7 @@ Definition deliver_batch_config (s : state) (sender : addr) (act : N) (keypers :
                       | None => Some (s, err)
                       | Some v' =>
                           let s1 := set_cfg_voting s v' in
-                          match outcome v' (int_of_u64 (c_threshold lc)) with
+                          match outcome enum v' (int_of_u64 (c_threshold lc)) with
                           | None => Some (s1, (code_ok, []))
                           | Some None => None
                           | Some (Some _) =>
@@ -400,7 +410,7 @@ Definition deliver_dkg_result (s : state) (sender : addr) (success : bool) (eon 
                let d' := mkDkg (d_config d) (d_eon d) v' (d_evals d) (d_commits d) (d_accs d) (d_apos d) in
                let s1 := set_dkgs s (dkg_set (dkgs s) eon d') in
                (* maybeStartEon *)
-               match outcome v' (int_of_u64 (c_threshold c)) with
+               match outcome enum v' (int_of_u64 (c_threshold c)) with
                | None => Some (s1, (code_ok, []))
                | Some None => None
                | Some (Some succ) =>
@@ -599,13 +609,16 @@ Definition current_validators (ids : amap bytes) (dflt : powermap) (cs : list co
 Definition end_block (s : state) (height : Z) : state * (list (bytes * Z) * list event) :=
   let '(cs, evs) := end_block_configs s None (configs s) in
   let newv := current_validators (identities s) (validators s) cs in
-  let ups := validator_updates (diff_powermaps (validators s) newv) in
+  let ups := validator_updates_enum
+               (enum _ (diff_powermaps_enum (validators s) newv (enum _ (validators s)) (enum _ newv))) in
   let s' := set_end_block s cs newv height in
   (s', (if dev_mode s then [] else ups, evs)).
 
 Definition commit (s : state) : state := set_chk s (chk_members s) [] [].
 
 (* ---------------------------------------------------------------- genesis *)
+End WithEnum.
+
 
 Record genesis := mkGenesis {
   g_keypers : list addr;
@@ -647,15 +660,18 @@ Inductive response :=
 | RCommit
 | RPanic.
 
+Section RunWithEnum.
+Variable enum : enumerator.
+
 Definition step (s : state) (c : call) : state * response :=
   match c with
   | CBegin h => match begin_block s h with Some evs => (s, RBegin evs) | None => (s, RPanic) end
   | CCheck t => let '(s', code) := check_tx s t in (s', RCheck code)
-  | CDeliver t => match deliver_tx s t with
+  | CDeliver t => match deliver_tx enum s t with
                   | Some (s', (code, evs)) => (s', RDeliver code evs)
                   | None => (s, RPanic)
                   end
-  | CEnd h => let '(s', (ups, evs)) := end_block s h in (s', REnd ups evs)
+  | CEnd h => let '(s', (ups, evs)) := end_block enum s h in (s', REnd ups evs)
   | CCommit => (commit s, RCommit)
   end.
 
@@ -663,4 +679,12 @@ Fixpoint run (s : state) (cs : list call) : state * list response :=
   match cs with
   | [] => (s, [])
   | c :: r => let '(s1, o) := step s c in let '(s2, os) := run s1 r in (s2, o :: os)
+  end.
+End RunWithEnum.
+
+(* a run in which every call has its own enumerator (Go may enumerate differently each time) *)
+Fixpoint run_enums (es : nat -> enumerator) (k : nat) (s : state) (cs : list call) : state * list response :=
+  match cs with
+  | [] => (s, [])
+  | c :: r => let '(s1, o) := step (es k) s c in let '(s2, os) := run_enums es (S k) s1 r in (s2, o :: os)
   end.
